@@ -30,7 +30,7 @@ STRATS = ["error", "warning", "replace", "create_unique", "merge"]
 
 def budget(tier):
     if tier == "quick":
-        return {"runs": 2400, "wall": 120, "chunk": 8}
+        return {"runs": 2000, "wall": 120, "chunk": 8}
     return {"runs": 100000, "wall": 1500, "chunk": 8}
 
 
@@ -77,7 +77,7 @@ def gen(rng, tier):
     memory = rng.random() < 0.15
     if memory:
         steps = [st for st in steps if st["op"] not in ("reopen", "restart")]
-    return {"gtf": gtf, "fmf": fmf, "steps": steps, "memory": memory, "fault_profile": rng.random() < (0.1 if not memory else 0.5), "fault_seed": rng.getrandbits(32)}
+    return {"gtf": gtf, "fmf": fmf, "steps": steps, "memory": memory, "fault_profile": rng.random() < (0.2 if not memory else 0.5), "fault_seed": rng.getrandbits(32)}
 
 
 def run(case):
